@@ -310,6 +310,34 @@ def run_given(col, strategy, oracle, seed, max_examples, shrink=True):
     except Violation as v:
         col.fail(v)
         return v
+    except BaseException as e:
+        v = _violation_inside(e)
+        if v is None:
+            raise
+        # Hypothesis reports a failure it could not reproduce on replay
+        # (e.g. it depends on set iteration order inside the code under
+        # test) as a Flaky group; the violation was observed, so report it.
+        col.notes.append('flaky: %s' % type(e).__name__)
+        col.fail(v)
+        return v
+    return None
+
+
+def _violation_inside(exc, depth=0):
+    if isinstance(exc, Violation):
+        return exc
+    if depth > 4:
+        return None
+    for sub in getattr(exc, 'exceptions', ()) or ():
+        v = _violation_inside(sub, depth + 1)
+        if v is not None:
+            return v
+    for attr in ('__cause__', '__context__'):
+        nxt = getattr(exc, attr, None)
+        if nxt is not None:
+            v = _violation_inside(nxt, depth + 1)
+            if v is not None:
+                return v
     return None
 
 
@@ -321,6 +349,13 @@ def run_machine(col, machine_cls, seed, max_examples, steps, shrink=True):
             hypothesis.seed(seed)(machine_cls),
             settings=hyp_settings(max_examples, shrink, steps))
     except Violation as v:
+        col.fail(v)
+        return v
+    except BaseException as e:
+        v = _violation_inside(e)
+        if v is None:
+            raise
+        col.notes.append('flaky: %s' % type(e).__name__)
         col.fail(v)
         return v
     return None
